@@ -508,6 +508,7 @@ func (s *sess) encode(opname string, st St, L *live) []byte {
 			return
 		}
 		enc = out
+		disturbEncode(out) // the result is HELD while other messages go through the encoder; it is read only afterwards
 		e.Enc, e.Built = ev.Ints(out), b
 		e.Lerr, e.Lenc, e.Ldec = lerr != nil, ev.Ints(lenc), ldec
 		r := decodeOp("DecodeMsg", append([]byte{}, out...))
@@ -523,6 +524,37 @@ func (s *sess) encode(opname string, st St, L *live) []byte {
 	}
 	s.w.Emit(e)
 	return enc
+}
+
+// disturbEncode: while `held` (the slice an encode call returned, not a copy) is kept, two other messages are encoded: a
+// MANAGE UE POLICY COMPLETE and a message of the held one's own type and size with every content octet inverted.
+// An encoding is a value: a result that is a view into pooled or cached storage has changed by the time it is read.
+func disturbEncode(held []byte) {
+	ev.Guard(func() {
+		d := upc.NewUePolDeliverySer()
+		d.SetHeaderMessageType(upc.MsgTypeManageUEPolicyComplete)
+		d.ManageUEPolicyComplete = upc.NewManageUEPolicyComplete(upc.MsgTypeManageUEPolicyComplete)
+		d.ManageUEPolicyComplete.PTI.SetPTI(0xa5)
+		_, _ = d.UePolDeliverySerEncode()
+		x := upc.NewUePolDeliverySer()
+		if x.UePolDeliverySerDecode(append([]byte{}, held...)) != nil {
+			return
+		}
+		inv := func(b []byte) []byte {
+			o := make([]byte, len(b))
+			for i := range b {
+				o[i] = ^b[i]
+			}
+			return o
+		}
+		if c := x.ManageUEPolicyCommand; c != nil {
+			c.UEPolicySectionManagementList.SetUEPolicySectionManagementListContent(inv(c.UEPolicySectionManagementList.GetUEPolicySectionManagementListContent()))
+		}
+		if c := x.ManageUEPolicyReject; c != nil {
+			c.UEPolicySectionManagementResult.SetUEPolicySectionManagementResultContent(inv(c.UEPolicySectionManagementResult.GetUEPolicySectionManagementResultContent()))
+		}
+		_, _ = x.UePolDeliverySerEncode()
+	})
 }
 
 // ---------------------------------------------------------------- histories on one live object
